@@ -3923,6 +3923,9 @@ class mulgrid(object):
                 columns = [self.column[col] for col in columns]
             # (ignore any repeated columns)
             columns = [col for i, col in enumerate(columns) if col not in columns[:i]]
+        if not all([col.num_nodes in [3, 4] for col in columns]):
+            print('Grid selection contains columns with more than 4 nodes: not supported.')
+            return
         connections = set([])
         sidenodes = {}
         chars = uniqstring(chars)
